@@ -2,7 +2,7 @@
    inductives. No Extract Constant of our own. *)
 From Coq Require Import ZArith List Bool.
 Require Import ExtrOcamlBasic.
-From RS Require Import Base.Bytes Base.Dyadic Model.Desc Model.Kernels Model.Spec Model.Decoder Model.Driver Model.Input Model.Scenario.
+From RS Require Import Base.Bytes Base.Dyadic Model.Desc Model.Kernels Model.Spec Model.Decoder Model.Driver Model.Input Model.Scenario Model.Lifecycle.
 From RS Require Import Gen.Params_gen Gen.Kernels_gen.
 Extraction Language OCaml.
 Extraction "model.ml"
@@ -15,4 +15,5 @@ Extraction "model.ml"
   Kernels_gen.SplitStrategyBySeq_maxSeq Kernels_gen.AzimuthSection_ctor Kernels_gen.AzimuthSection_in_ Kernels_gen.fn_parseTempInLe Kernels_gen.fn_parseTempInBe
   Dyadic.dy_mul_r Dyadic.dy_of_Z Dyadic.dy_trunc Decoder.parse_ymd Decoder.create_ymd Decoder.parse_utc Decoder.create_utc
   Driver.crc_calc Driver.crc_ok Driver.overflow_guard
+  Lifecycle.lstep Lifecycle.lnone
   Input.bpf_udp Input.pcap_extract Input.sock_extract Input.parse_frag Input.jumbo_step Input.jumbo_run Input.raw_feed.
